@@ -32,8 +32,13 @@ impl ProgramArchive {
     ) -> Result<ProgramArchive, (FileLibrary, Vec<Report>)> {
         let mut merger = Merger::new();
         let mut reports = vec![];
-        for (file_id, definitions) in program_contents {
-            if let Err(mut errs) = merger.add_definitions(*file_id, definitions) {
+        // Add definitions from included files first. This ensures that if a definition
+        // in a user specified file clashes with a definition in an included file, the
+        // error is reported for the user specified file (and not filtered out).
+        let mut file_ids = program_contents.keys().copied().collect::<Vec<_>>();
+        file_ids.sort_by_key(|file_id| (file_library.is_user_input(*file_id), *file_id));
+        for file_id in file_ids {
+            if let Err(mut errs) = merger.add_definitions(file_id, &program_contents[&file_id]) {
                 reports.append(&mut errs);
             }
         }
